@@ -14,6 +14,7 @@ while [ $SECONDS -lt $end ]; do
         /verif/tools/seed_eval.sh $id $n quick $id
         if ! grep -q "^VIOLATION" /verif/seeded/r${RND}-$id-$n/result.txt; then
           case $id in C17|C18|C19) others="" ;; *) others=$(echo $ALL | sed "s/$id//") ;; esac
+          [ -z "$others" ] && echo "---- not caught by $id (no neighbouring checks apply)"
           if [ -n "$others" ]; then
             echo "---- not caught by $id, trying neighbours"
             /verif/tools/mutant.sh "r${RND}n-$id-$n" "$src/patch.diff" quick $others 2>&1 | grep -E "^== |^VIOLATION|^  kind:|^INCONCLUSIVE" | cut -c1-260 | tee -a /verif/seeded/r${RND}-$id-$n/result.txt
